@@ -168,12 +168,28 @@ func (m *Machine) stub(fn *ssa.Function, args []Value) (Value, bool) {
 			}
 			return Tuple{Ptr{}, m.newErr("bad elg key len", nil)}, true
 		}
-		valid := m.fresh(0, "keyvalid")
+		// Range check 2 <= y < p-1 (ElGamal) / 2 <= y < p (DSA) of the real constructor, decided exactly on
+		// two regions and assumed away elsewhere (stated restriction: keys are explored with first byte 0 and
+		// last byte >= 2 -- certainly valid, since both moduli exceed 2^1016 / 2^2040 -- or as the values 0 and
+		// 1 -- certainly invalid).
+		cells := make([]*Term, want)
+		for i := 0; i < want; i++ {
+			cells[i] = m.term(s.node.elems[s.off+i])
+		}
 		arr := m.newNode(want)
 		for i := 0; i < want; i++ {
-			arr.elems[i] = s.node.elems[s.off+i]
+			arr.elems[i] = cells[i]
 		}
-		if !m.branch(valid) {
+		validR := m.tt.And(m.tt.Cmp("=", cells[0], m.c8(0)), m.tt.Cmp("bvule", m.c8(2), cells[want-1]))
+		zeroHead := m.tt.Bool(true)
+		for i := 0; i < want-1; i++ {
+			zeroHead = m.tt.And(zeroHead, m.tt.Cmp("=", cells[i], m.c8(0)))
+		}
+		invalidR := m.tt.And(zeroHead, m.tt.Cmp("bvule", cells[want-1], m.c8(1)))
+		if !m.branch(validR) {
+			if !m.branch(invalidR) {
+				m.end("vacuous", "ElGamal/DSA public key outside the modelled regions")
+			}
 			if strings.Contains(name, "dsa") {
 				return Tuple{m.zero(results.At(0).Type()), m.newErr("invalid dsa key", nil)}, true
 			}
